@@ -623,6 +623,28 @@ pub fn load_corpus() -> Corpus {
 
 // ------------------------------------------------------------------ case kinds
 
+/// meta.jsonl is read back line by line by tools/check with str.splitlines(), which also
+/// splits on U+2028, U+0085, VT, FF, ...: keep every string of the description printable ASCII
+fn ascii_safe(v: &Value) -> Value {
+  fn esc(s: &str) -> String {
+    let mut o = String::new();
+    for c in s.chars() {
+      if (' '..='~').contains(&c) {
+        o.push(c);
+      } else {
+        o.push_str(&format!("\\u{{{:x}}}", c as u32));
+      }
+    }
+    o
+  }
+  match v {
+    Value::String(s) => Value::String(esc(s)),
+    Value::Array(a) => Value::Array(a.iter().map(ascii_safe).collect()),
+    Value::Object(m) => Value::Object(m.iter().map(|(k, x)| (esc(k), ascii_safe(x))).collect()),
+    x => x.clone(),
+  }
+}
+
 fn info_nontrivial(mi: &ModuleInfo) -> bool {
   !mi.dependencies.is_empty()
     || !mi.ts_references.is_empty()
@@ -1342,7 +1364,7 @@ pub fn run(cfg: &RunCfg) {
   let fixed = n_enum + n_corpus + n_manifest + n_hand;
   let total = fixed + n_random;
   eprintln!("c13: {} enumerated, {} corpus modules, {} corpus manifest entries, {} handwritten, {} generated", n_enum, n_corpus, n_manifest, n_hand, n_random);
-  run_cases(cfg, total, |seed, k| {
+  let gen_case = |seed: u64, k: u64| -> Case {
     let mut rng = Rng::for_case(seed, k);
     if k < n_enum {
       let mut c = codec_case(&enumerated[k as usize], &mut rng, "enumerated", json!(k));
@@ -1397,5 +1419,10 @@ pub fn run(cfg: &RunCfg) {
       7 | 8 => v1_case(&mut rng),
       _ => pkg_case(&mut rng),
     }
+  };
+  run_cases(cfg, total, |seed, k| {
+    let mut c = gen_case(seed, k);
+    c.meta = ascii_safe(&c.meta);
+    c
   });
 }
